@@ -70,7 +70,8 @@ def numeric_menu(spec, field, level):
                     vals += [1e30, -1e30]
     if has_leaf:
         if level == "core":
-            vals += [0.5, NAN, -2.0]
+            # (+-inf are the identities of min / max: an extreme that is infinite is still an extreme)
+            vals += [0.5, NAN, -2.0, INF, -INF]
         elif edges:
             vals += [0.5, -2.0, NAN, INF]
         else:
@@ -83,7 +84,7 @@ def field_menu(spec, field, level):
         return numeric_menu(spec, field, level)
     if field == "c":
         if level == "core":
-            return ["a", None, "b"]
+            return ["a", None, "b", True]  # (a bool is a legal category, distinct from the string "True")
         return ["a", "b", "", None, NAN, True, "NaN"]
     if field == "s":
         if level == "core":
@@ -160,12 +161,14 @@ NOOP_WEIGHTS = [0.0, -1.0, NAN]
 
 def events(spec, level="core", cap=None, noop=True, weights=None):
     """Event menu: (record, weight) pairs. Every record with every positive weight, plus each no-op weight on
-    the first record."""
+    the first record and weight -1 on every other record."""
     recs = records(spec, level, cap)
     ws = POS_WEIGHTS[level] if weights is None else weights
     out = [(r, w) for w in ws for r in recs]
     if noop:
         out += [(recs[0], w) for w in NOOP_WEIGHTS]
+        # a negative weight on every other record too (a sign error needs the datum's own sign: negative selection values)
+        out += [(r, -1.0) for r in recs[1:]]
     return out
 
 
